@@ -166,7 +166,7 @@ fn eval(id: &str, m: &Movie, want: &WantTags, shape: &str, rep: &mut Report, arg
 pub fn run(args: &Args) -> i32 {
     let mut rep = Report::new(args, true);
     let mut idx = 0u64;
-    let reps = args.scale(480, 12_000);
+    let reps = args.scale(4_000, 60_000);
     for present in 0..16u32 {
         for mdir in [true, false] {
             for place in 0..4u8 {
